@@ -8,7 +8,7 @@ import z3
 from ..values import *
 from ..ops import *
 from ..interp import *
-from .core import lib, LIB
+from .core import lib, LIB, accept_kwargs
 
 TFile = TObj('SequenceFile')
 TSig = TObj('Signature')          # an opaque signature value (what calc_file_signature returns)
@@ -20,6 +20,7 @@ TKSpecV = TObj('KmerSpecV')
 @lib('concurrent.futures.ThreadPoolExecutor', 'concurrent.futures.ProcessPoolExecutor',
      'concurrent.futures.thread.ThreadPoolExecutor', 'concurrent.futures.process.ProcessPoolExecutor')
 def _executor(eng, st, args, kwargs, node):
+	accept_kwargs(kwargs, 'max_workers')       # the worker count does not occur in the futures contract (any completion order is covered)
 	yield st, ExtObj('executor', created_here=True)
 
 
@@ -134,6 +135,7 @@ def _progress_config(eng, st, args, kwargs, node):
 
 @lib('method:update')
 def _pconf_update(eng, st, obj, args, kwargs, node, site):
+	accept_kwargs(kwargs, 'desc', 'total', 'file')      # progress configuration: display only
 	if isinstance(obj, ExtObj) and obj.kind == 'pconf':
 		yield st, obj
 		return
